@@ -419,6 +419,16 @@ Fixpoint calls (O : fobj) (cs : list ocall) (d : disk) : fobj * res (disk * list
                 end
   end.
 
+(* operations that only READ: read, fileset[t], collect / icollect / fileset[s:e], find, and a dry run of delete.
+   reading_keeps_disk: they hand back the WHOLE disk as it was (no path gone, none new -- nothing left in a temporary
+   directory --, no content changed), also when several selected files share their base name *)
+Definition reads (o : op) : bool :=
+  match o with
+  | ORead _ _ | OGet _ _ | OCollect _ _ | OFind _ _ => true
+  | ODelete _ dry _ => dry
+  | _ => false
+  end.
+
 End Ops.
 
 Arguments FSet {Data}. Arguments tpl {Data}. Arguments cov {Data}. Arguments hid {Data}.
